@@ -80,6 +80,31 @@ class MethodMap:
         self.has = has
         self.responder = responder
         self.asked = []
+        self.writes = []  # any attempt to modify the mapping (it is the route's own table: a lookup only reads it)
+
+    def __pyvc_setitem__(self, k, x):
+        self.writes.append(('set', k))
+
+    __setitem__ = __pyvc_setitem__
+
+    def __pyvc_delitem__(self, k):
+        self.writes.append(('del', k))
+
+    __delitem__ = __pyvc_delitem__
+
+    def setdefault(self, k, x=None):
+        self.writes.append(('setdefault', k))
+        return self.responder if self.has else x
+
+    def pop(self, k, *d):
+        self.writes.append(('pop', k))
+        return self.responder if self.has else (d[0] if d else None)
+
+    def update(self, *a, **k):
+        self.writes.append(('update',))
+
+    def clear(self):
+        self.writes.append(('clear',))
 
     def __pyvc_getitem__(self, k):
         self.asked.append(k)
@@ -100,6 +125,9 @@ class MatchObj:
 
     def __init__(self, owner):
         self.owner = owner
+
+    def __bool__(self):  # a re.Match is always true
+        return True
 
     def groupdict(self):
         o = self.owner
@@ -130,6 +158,42 @@ def app_obj(v, asgi, **fields):
     return v.obj(AAPP if asgi else APP, **fields)
 
 
+# --- frames: "what the function does not say it changes, it leaves alone" ------------------------
+
+
+def snapshot(o):
+    """All fields of an object as {name: value}: the field record of an interpreted object, the slots and __dict__ of a real one."""
+    from pyvc.core import Obj
+
+    if isinstance(o, Obj):
+        return dict(o._fields)
+    out = {}
+    for c in type(o).__mro__:
+        sl = c.__dict__.get('__slots__', ())
+        for n in ((sl,) if isinstance(sl, str) else sl):
+            try:
+                out[n] = object.__getattribute__(o, n)
+            except AttributeError:
+                pass
+    out.update(getattr(o, '__dict__', {}))
+    return out
+
+
+def same_fields(now, before):
+    """No field added, none removed, every field still bound to the very same object."""
+    return set(now) == set(before) and all(now[k] is before[k] for k in before)
+
+
+def same_items(now, before):
+    """A list / tuple still holds the very same objects in the same order."""
+    return len(now) == len(before) and all(a is b for a, b in zip(now, before))
+
+
+def same_strings(now, before):
+    """A list of (possibly symbolic) strings still reads the same, element by element."""
+    return len(now) == len(before) and And(True, *[a == b for a, b in zip(now, before)])
+
+
 # ---------------------------------------------------------------------------
 # _get_responder
 
@@ -138,7 +202,9 @@ def get_responder(v):
     asgi = v.choose(2, 'asgi-app?')
     cls = v.real(AAPP if asgi else APP)
     req = Req(v)
-    RES, RESP, PARAMS = Tok('resource'), Tok('responder'), Tok('route-params')
+    RES, RESP = Tok('resource'), Tok('responder')
+    FIELD = Tok('field-value')
+    PARAMS = {'id': FIELD}  # the dict of route fields the router hands over (a real dict: it must come back as it is)
     tmpl = v.str('uri_template')
     kind = v.choose(5, 'route-result')
     has = None
@@ -166,20 +232,30 @@ def get_responder(v):
         mt = Matcher(v, i, is_sink, m, log)
         entries.append((mt, Tok('sink%d' % i) if is_sink else mt, is_sink))
     app = app_obj(v, asgi, _router_search=search, _sink_and_static_routes=tuple(entries))
+    v.expect_covers('route-with-method', 'route-without-method', '404', 'legacy-not-found-tuple', *(['fallback-hit', 'sink-hit', 'static-hit'] if n else []))
+    app0, req0 = snapshot(app), snapshot(req)
 
     out = v.call(app, req)
     v.check('no-exception', out.exc is None)
     if out.exc is not None:
         return
     responder, params, resource, uri_template = out.value
-    expected_key = 'WEBSOCKET' if req.is_websocket else req.method  # forks in symbolic mode
+    expected_key = 'WEBSOCKET' if req0['is_websocket'] else req0['method']  # forks in symbolic mode
     v.check('router-searched-once-with-request-path',
-            len(search.calls) == 1 and search.calls[0][0] is req.path and search.calls[0][1] is req)
+            len(search.calls) == 1 and search.calls[0][0] is req0['path'] and search.calls[0][1] is req)
+    # frame: routing a request is a pure lookup -- it decides, it does not record.  Nothing reachable from the app
+    # (router hook, combined table, any other field such as a cache) or from the request is written.
+    v.check('lookup-leaves-the-app-unchanged', same_fields(snapshot(app), app0))
+    v.check('lookup-leaves-the-request-unchanged', same_fields(snapshot(req), req0))
 
     if kind in (1, 2):
         # a route matched
         v.check('route-masks-sinks-and-static-routes', len(log) == 0)
         v.check('route-lookup-is-by-request-method-or-WEBSOCKET', len(mm.asked) == 1 and (mm.asked[0] == expected_key))
+        # frame: the route's method map is the router's own table, shared by every request to that route
+        v.check('lookup-leaves-the-route-method-map-unchanged', mm.writes == [])
+        # frame: the route fields reach the responder exactly as the router produced them
+        v.check('route-params-are-handed-over-unmodified', params is PARAMS and list(PARAMS.items()) == [('id', FIELD)])
         if has:
             v.check('route-responder-is-method-map-entry', responder is RESP)
             v.cover('route-with-method')
@@ -207,14 +283,55 @@ def get_responder(v):
     v.check('no-match-yields-404-default', Implies(none_matches, responder is cls._default_responder_path_not_found))
     v.check('no-match-params-empty', Implies(none_matches, isinstance(params, dict) and params == {}))
     v.check('no-match-scanned-everything', Implies(none_matches, consulted == list(range(n))))
+    if kind >= 3:
+        v.cover('legacy-not-found-tuple')
     if responder is cls._default_responder_path_not_found:
         v.cover('404')
     elif n:
         v.cover('fallback-hit')
+        for i in range(n):
+            if responder is entries[i][1]:
+                v.cover('sink-hit' if entries[i][2] else 'static-hit')
 
 
 for _n in range(4):
     harness(PROP, APP + '._get_responder', name='get_responder[n=%d]' % _n, fix={'table-length': _n})(get_responder)
+
+
+# --- two requests through one app: what the first lookup returned is not what the second one returns ----------
+
+
+@harness(PROP, APP + '._get_responder')
+def get_responder_twice(v):
+    """The params of a request that matched no route (404, static route) are the responder's **kwargs and may be edited by
+    process_resource middleware: each lookup must hand out its own empty dict, never one shared with other requests."""
+    v.expect_covers('two-404s', 'two-static-hits')
+    asgi = v.choose(2, 'asgi-app?')
+    cls = v.real(AAPP if asgi else APP)
+    hit = bool(v.choose(2, 'a-static-route-matches?'))
+    log = []
+    mt = Matcher(v, 0, False, hit, log)
+    search = RouterSearch(None)
+    app = app_obj(v, asgi, _router_search=search, _sink_and_static_routes=((mt, mt, False),))
+    app0 = snapshot(app)
+    o1 = v.call(app, Req(v))
+    v.check('no-exception', o1.exc is None)
+    if o1.exc is not None:
+        return
+    p1 = o1.value[1]
+    if isinstance(p1, dict):
+        p1['injected-by-middleware-of-request-1'] = Tok('value')
+    o2 = v.call(app, Req(v))
+    v.check('no-exception', o2.exc is None)
+    if o2.exc is not None:
+        return
+    p2 = o2.value[1]
+    v.check('no-route-params-are-a-fresh-dict-per-lookup', isinstance(p1, dict) and isinstance(p2, dict) and p2 is not p1)
+    v.check('no-route-params-of-the-next-request-are-empty', isinstance(p2, dict) and p2 == {})
+    want = mt if hit else cls._default_responder_path_not_found
+    v.check('same-app-same-answer', o1.value[0] is want and o2.value[0] is want)
+    v.check('lookup-leaves-the-app-unchanged', same_fields(snapshot(app), app0))
+    v.cover('two-static-hits' if hit else 'two-404s')
 
 
 # --- the scan for a table of arbitrary length n (loop invariant) --------------------------------
@@ -321,12 +438,17 @@ def get_responder_any_length(v):
     search = RouterSearch([None, (None, None, None), (RES, mm, PARAMS, 'tmpl')][rk])
     t = Table(v, req.path)
     app = app_obj(v, asgi, _router_search=search, _sink_and_static_routes=t)
+    v.expect_covers('route', 'sink-hit', 'static-hit', '404')
+    app0, req0 = snapshot(app), snapshot(req)
     out = v.call(app, req)
     v.check('no-exception', out.exc is None)
     if out.exc is not None:
         return
     responder, params, resource, uri_template = out.value
+    v.check('lookup-leaves-the-app-unchanged', same_fields(snapshot(app), app0))
+    v.check('lookup-leaves-the-request-unchanged', same_fields(snapshot(req), req0))
     if rk == 2:
+        v.check('lookup-leaves-the-route-method-map-unchanged', mm.writes == [])
         v.check('route-masks-sinks-and-static-routes', not t.touched)
         v.check('route-responder-is-method-map-entry' if mm.has else 'route-without-method-gets-bad-request-default',
                 responder is (RESP if mm.has else cls._default_responder_bad_request))
@@ -522,6 +644,14 @@ class Tables:
             self.S0, self.T0 = S.seq, T.seq
         self.stale = Tok('stale-combined-table')
         self.app = app_obj(v, asgi, _sinks=S, _static_routes=T, _sink_before_static_route=self.sbs, _sink_and_static_routes=self.stale)
+        self.fields0 = snapshot(self.app)
+
+    def check_frame(self):
+        """What a registration step may write is the three tables; the configured order and everything else stays."""
+        v = self.v
+        now = snapshot(self.app)
+        v.check('configured-order-is-not-changed-by-a-registration', '_sink_before_static_route' in now and now['_sink_before_static_route'] is self.sbs)
+        v.check('registration-writes-nothing-but-the-three-tables', set(now) == set(self.fields0))
 
     # sequences as the specification sees them (z3 Seq term | python list)
     def now(self, field):
@@ -558,6 +688,7 @@ class Tables:
     def check_step(self, S1, T1, changed=None):
         """S1/T1: the expected tables after the step (spec side); `changed`: which table got the new head."""
         v = self.v
+        self.check_frame()
         v.check('sinks-table-newest-first' if changed == 'sinks' else 'sinks-table-untouched', self.is_kind('_sinks', False) and self.eq(self.now('_sinks'), S1))
         v.check('static-table-newest-first' if changed == 'statics' else 'static-table-untouched',
                 self.is_kind('_static_routes', False) and self.eq(self.now('_static_routes'), T1))
@@ -574,6 +705,7 @@ class Tables:
 
     def check_untouched(self):
         v = self.v
+        self.check_frame()
         v.check('rejected-registration-leaves-tables-untouched',
                 And(self.eq(self.now('_sinks'), self.S0), self.eq(self.now('_static_routes'), self.T0),
                     v.get(self.app, '_sink_and_static_routes') is self.stale))
@@ -586,7 +718,10 @@ def add_sink(v):
     import os
     import re
 
+    v.expect_covers('rejected', 'registered', 'sinks-first', 'statics-first')
     asgi = v.choose(2, 'asgi-app?')
+    if asgi:
+        v.expect_covers('registered-wrapped-sync-sink')
     t = Tables(v, asgi)
     sink, is_coro, is_py = mk_sink(v)
     wrap_env = bool(v.choose(2, 'FALCON_ASGI_WRAP_NON_COROUTINES?')) if asgi else False
@@ -629,6 +764,8 @@ def add_sink(v):
         return
     t.check_step(t.cat(t.unit(entry), t.S0), t.T0, changed='sinks')
     v.cover('registered')
+    if wrapped:
+        v.cover('registered-wrapped-sync-sink')
 
 
 def _head(v, t, field):
@@ -665,6 +802,7 @@ for _a in (0, 1):
 
 
 def add_static_route(v):
+    v.expect_covers('registered', 'sinks-first', 'statics-first')
     asgi = v.choose(2, 'asgi-app?')
     t = Tables(v, asgi)
     downloadable = bool(v.choose(2, 'downloadable?'))
@@ -694,6 +832,7 @@ harness(PROP, APP + '.add_static_route', setup=_tables_setup, inline=[APP + '._u
 
 @harness(PROP, APP + '._update_sink_and_static_routes', setup=_tables_setup)
 def update_tables(v):
+    v.expect_covers('sinks-first', 'statics-first')
     t = Tables(v, v.choose(2, 'asgi-app?'))
     out = v.call(t.app)
     v.check('no-exception', out.exc is None)
@@ -716,6 +855,7 @@ def _init_setup(reg, ex):
 
 def app_init(v):
     """Base case: a new app has empty sink / static / combined tables and remembers the configured order."""
+    v.expect_covers('constructed', 'second-app-constructed')
     asgi = v.choose(2, 'asgi-app?')
     how = v.choose(3, 'sink_before_static_route-argument')  # omitted / True / False
     kw = {} if how == 0 else {'sink_before_static_route': how == 1}
@@ -732,6 +872,18 @@ def app_init(v):
     v.check('new-app-has-empty-combined-table', isinstance(C, tuple) and C == ())
     v.check('sinks-come-first-unless-configured-otherwise', v.get(app, '_sink_before_static_route') is (how != 2))
     v.cover('constructed')
+    # frame across constructions: the tables are the app's own (registrations insert into them in place) -- a second app,
+    # built in the same process, must not get the same list objects, or its sinks would serve the first app's requests
+    app2 = v.obj(AAPP if asgi else APP)
+    out2 = v.call(app2, target=(AAPP if asgi else APP) + '.__init__', **kw)
+    v.check('no-exception', out2.exc is None)
+    if out2.exc is not None:
+        return
+    S2, T2 = v.get(app2, '_sinks'), v.get(app2, '_static_routes')
+    v.check('tables-are-not-shared-between-apps', all(a is not b for a in (S, T) for b in (S2, T2)))
+    v.check('constructing-another-app-leaves-this-one-alone',
+            v.get(app, '_sinks') is S and S == [] and v.get(app, '_static_routes') is T and T == [] and v.get(app, '_sink_and_static_routes') is C)
+    v.cover('second-app-constructed')
 
 
 for _a in (0, 1):
@@ -800,8 +952,10 @@ def RESPONDERS(name):
 
 @harness(PROP, RESPONDERS('create_method_not_allowed'))
 def method_not_allowed_responder(v):
+    v.expect_covers('raised')
     asgi = bool(v.choose(2, 'asgi?'))
     allowed = sym_strings(v, 'allowed-count', 'allowed')
+    allowed0 = list(allowed)  # the caller's list as it was handed in (the clauses below compare against this copy)
     out = v.call(allowed, asgi=asgi) if v.choose(2, 'asgi-by-keyword?') else v.call(allowed, asgi)
     v.check('no-exception', out.exc is None)
     if out.exc is not None:
@@ -820,6 +974,9 @@ def method_not_allowed_responder(v):
     else:
         v.check('405-carries-exactly-the-given-methods', len(o2.exc.args) == 1 and not o2.exc.kwargs and o2.exc.args[0] is allowed)
     v.check('405-responder-leaves-response-alone', resp.writes == [])
+    # frame: the list belongs to the caller (set_default_responders goes on using it); neither creating nor running the
+    # responder may edit it -- the two clauses above compare with the list object itself and would not notice
+    v.check('given-method-list-is-not-modified', same_strings(allowed, allowed0))
     v.cover('raised')
 
 
@@ -833,26 +990,50 @@ def _http_error_init(reg, ex):
 @harness(PROP, 'falcon.errors:HTTPMethodNotAllowed.__init__', setup=_http_error_init, inline=['falcon.errors:_load_headers'])
 def method_not_allowed_exception(v):
     """The Allow header of the 405 is the comma-separated list of exactly the given methods."""
+    v.expect_covers('constructed', 'second-405-constructed')
     allowed = sym_strings(v, 'allowed-count', 'allowed')
+    allowed0 = list(allowed)
     e = v.obj('falcon.errors:HTTPMethodNotAllowed')
     out = v.call(e, allowed)
     v.check('no-exception', out.exc is None)
     if out.exc is not None:
         return
     HTTP_405 = v.real('falcon.status_codes:HTTP_405')
-    if v.concrete:
-        st, headers = e.status, e.headers
-    else:
-        st, kw = e._fields.get('super_init', (None, {}))
-        headers = kw.get('headers')
+
+    def observed(exc):
+        if v.concrete:
+            return exc.status, exc.headers
+        st, kw = exc._fields.get('super_init', (None, {}))
+        return st, kw.get('headers')
+
+    st, headers = observed(e)
     v.check('status-is-405', st == HTTP_405 and HTTP_405.startswith('405 '))
     v.check('allow-header-is-the-joined-list', isinstance(headers, dict) and list(headers) == ['Allow'] and And(True, headers['Allow'] == joined(allowed)))
+    v.check('given-method-list-is-not-modified', same_strings(allowed, allowed0))
+    v.cover('constructed')
+    if not isinstance(headers, dict):
+        return
+    # frame across constructions: every 405 has its own headers dict; raising another one (for another resource, with other
+    # methods) must not rewrite the Allow header of this one
+    other = ['LOCK', 'UNLOCK']
+    e2 = v.obj('falcon.errors:HTTPMethodNotAllowed')
+    out2 = v.call(e2, other)
+    v.check('no-exception', out2.exc is None)
+    if out2.exc is not None:
+        return
+    st2, headers2 = observed(e2)
+    v.check('each-405-has-its-own-headers', isinstance(headers2, dict) and headers2 is not headers)
+    v.check('a-later-405-does-not-rewrite-this-allow-header', list(headers) == ['Allow'] and And(True, headers['Allow'] == joined(allowed0)))
+    v.check('allow-header-is-the-joined-list', isinstance(headers2, dict) and list(headers2) == ['Allow'] and headers2['Allow'] == 'LOCK, UNLOCK')
+    v.cover('second-405-constructed')
 
 
 @harness(PROP, RESPONDERS('create_default_options'))
 def default_options_responder(v):
+    v.expect_covers('answered')
     asgi = bool(v.choose(2, 'asgi?'))
     allowed = sym_strings(v, 'allowed-count', 'allowed')
+    allowed0 = list(allowed)
     out = v.call(allowed, asgi=asgi) if v.choose(2, 'asgi-by-keyword?') else v.call(allowed, asgi)
     v.check('no-exception', out.exc is None)
     if out.exc is not None:
@@ -874,10 +1055,14 @@ def default_options_responder(v):
     h = {n.lower(): x for n, x in hdrs}
     v.check('options-allow-lists-exactly-the-given-methods', h['allow'] == joined(allowed))
     v.check('options-content-length-zero', h['content-length'] == '0')
+    # frame: the caller's list is only read (set_default_responders appends OPTIONS to it afterwards, for the 405)
+    v.check('given-method-list-is-not-modified', same_strings(allowed, allowed0))
+    v.check('options-allow-lists-exactly-the-given-methods', h['allow'] == joined(allowed0))
     v.cover('answered')
 
 
 def fixed_raiser(v):
+    v.expect_covers('raised')
     which = v.choose(4, 'responder')
     name = ['path_not_found', 'path_not_found_async', 'bad_request', 'bad_request_async'][which]
     resp = Resp()
@@ -896,6 +1081,7 @@ def fixed_raiser(v):
     v.check('apps-are-wired-to-these-defaults',
             wsgi._default_responder_path_not_found is R.path_not_found and wsgi._default_responder_bad_request is R.bad_request
             and asgi._default_responder_path_not_found is R.path_not_found_async and asgi._default_responder_bad_request is R.bad_request_async)
+    v.cover('raised')
 
 
 for _i, _n in enumerate(['path_not_found', 'path_not_found_async', 'bad_request', 'bad_request_async']):
@@ -964,7 +1150,11 @@ def map_methods(v):
             put(m, 'plain', 1 if background in (1, 3) else 0)
             put(m, 'suffixed', 1 if background in (2, 3) else 0)
 
+    v.expect_covers('mapped', *(['raised'] if suffix else []))
+    res0 = dict(vars(res))
     out = v.call(res) if sk == 0 and v.choose(2, 'suffix-omitted?') else v.call(res, suffix)
+    # frame: mapping a resource reads its attributes; it neither adds bookkeeping to the resource nor rebinds a responder
+    v.check('resource-is-not-modified', same_fields(vars(res), res0))
     # specification: exactly the existing callable attributes named on_<method>[_<suffix>]
     source = suffixed if suffix else plain
     expected = {m: source[m] for m in ALL if m in source and callable(source[m])}
@@ -985,6 +1175,12 @@ def map_methods(v):
     v.check('maps-exactly-the-existing-callable-responders', set(mm) == set(expected))
     v.check('each-method-maps-to-its-own-responder', all(m in expected and mm[m] is expected[m] for m in mm))
     v.cover('mapped')
+    # frame across calls: the map is completed IN PLACE by set_default_responders (405s with this route's Allow list) and
+    # becomes the route node's table -- a second route on the same resource must get a map of its own
+    out2 = v.call(res, suffix)
+    mm2 = out2.value if out2.exc is None else None
+    v.check('each-call-returns-a-new-map', isinstance(mm2, dict) and mm2 is not mm)
+    v.check('a-later-call-leaves-the-earlier-map-alone', set(mm) == set(expected) and all(mm[m] is expected[m] for m in expected))
 
 
 for _s in range(3):
@@ -1022,8 +1218,10 @@ def route_wiring(v):
     kw = {} if suffix is None else {'suffix': suffix}
     if v.concrete:
         return _route_wiring_replay(v, asgi, suffix, kw)
+    v.expect_covers('wired')
     RES = Tok('resource')
-    MM = {'GET': Tok('on_get')}
+    ON_GET = Tok('on_get')
+    MM = {'GET': ON_GET}
     v.ctx.ghost['method_map'] = MM
     router = v.obj(CR, _roots=[], _find=None, _converter_map={})
     app = app_obj(v, asgi, _router=router)
@@ -1043,6 +1241,9 @@ def route_wiring(v):
     node = roots[0] if len(roots) == 1 else None
     v.check('route-node-carries-that-method-map-and-resource',
             node is not None and v.get(node, 'method_map') is MM and v.get(node, 'resource') is RES and v.get(node, 'uri_template') == '/things')
+    # frame: the map is filled by those two functions and by nothing else on the way into the routing tree
+    # (both are stubbed here as not touching it, so it must arrive exactly as map_http_methods returned it)
+    v.check('wiring-itself-adds-and-removes-no-responder', list(MM.items()) == [('GET', ON_GET)])
     v.cover('wired')
 
 
@@ -1094,6 +1295,7 @@ def parse_allow(h):
 
 
 def default_responders(v):
+    v.expect_covers('default-options', '405', 'user-options-kept', 'nothing-missing')
     constants = v.real('falcon.constants')
     ALL = list(constants.COMBINED_METHODS)
     META = set(constants._META_METHODS)
@@ -1119,6 +1321,7 @@ def default_responders(v):
     opt = mm.get('OPTIONS')
     if 'OPTIONS' in K:
         v.check('user-options-responder-kept', opt is user['OPTIONS'])
+        v.cover('user-options-kept')
     else:
         v.check('default-options-flavour-follows-asgi-flag', opt is not None and is_coroutine_function(v, opt) == asgi)
         resp = Resp()
@@ -1135,6 +1338,8 @@ def default_responders(v):
     missing = [m for m in ALL if m not in K and m != 'OPTIONS']
     nas = [mm.get(m) for m in missing]
     v.check('unimplemented-methods-share-one-405-responder', all(r is not None and r is nas[0] for r in nas))
+    if not missing:
+        v.cover('nothing-missing')
     if missing and nas[0] is not None:
         na = nas[0]
         v.check('405-responder-flavour-follows-asgi-flag', is_coroutine_function(v, na) == asgi)
@@ -1148,6 +1353,55 @@ def default_responders(v):
             v.check('405-allow-lists-exactly-implemented-plus-options', set(got) == set(implemented) | {'OPTIONS'} and len(got) == len(set(got)))
             v.check('405-allow-excludes-meta-methods', not (set(got) & META))
             v.cover('405')
+
+
+def _allow_of(v, responder):
+    """What a default responder says about Allow when it is run now: ('405', sorted methods) / ('200', sorted methods) / None."""
+    resp = Resp()
+    o = invoke(v, responder, Tok('req'), resp)
+    if o.exc is not None:
+        if o.exc.isa(v.real('falcon.errors:HTTPMethodNotAllowed')) and o.exc.real is not None:
+            return ('405', sorted(parse_allow(o.exc.real.headers.get('Allow', '?'))))
+        return None
+    hdrs = {n.lower(): x for k, n, x in resp.writes if k == 'header'}
+    return ('200', sorted(parse_allow(hdrs.get('allow', '?'))))
+
+
+def default_responders_two_routes(v):
+    """Two routes, two method maps: the defaults filled into one map speak of that map's methods only -- completing a second
+    map (another resource) neither reuses nor disturbs the 405 / OPTIONS responders of the first."""
+    v.expect_covers('two-maps-completed')
+    asgi = bool(v.choose(2, 'asgi?'))
+    A = [['GET'], ['GET', 'POST'], []][v.choose(3, 'first-resource')]
+    B = [['DELETE', 'PUT'], ['GET'], ['PATCH', 'OPTIONS']][v.choose(3, 'second-resource')]
+    ua = {m: Responder('a:' + m) for m in A}
+    ub = {m: Responder('b:' + m) for m in B}
+    ma, mb = dict(ua), dict(ub)
+    o1 = v.call(ma, asgi=asgi)
+    v.check('no-exception', o1.exc is None)
+    if o1.exc is not None:
+        return
+    first = dict(ma)  # the first route's table as completed
+    o2 = v.call(mb, asgi=asgi)
+    v.check('no-exception', o2.exc is None)
+    if o2.exc is not None:
+        return
+    v.check('completing-another-map-leaves-this-one-alone', set(ma) == set(first) and all(ma[m] is first[m] for m in first))
+    defaults_a = [r for m, r in ma.items() if m not in ua]
+    defaults_b = [r for m, r in mb.items() if m not in ub]
+    v.check('maps-do-not-share-default-responders', all(x is not y for x in defaults_a for y in defaults_b))
+    v.check('user-responders-stay-in-their-own-map', all(ma[m] is ua[m] for m in A) and all(mb[m] is ub[m] for m in B)
+            and all(r is not u for r in defaults_a for u in ub.values()))
+    na_a, na_b = ma['TRACE'], mb['TRACE']
+    v.check('405-of-each-route-lists-its-own-methods', _allow_of(v, na_a) == ('405', sorted(set(A) | {'OPTIONS'}))
+            and _allow_of(v, na_b) == ('405', sorted(set(B) | {'OPTIONS'})))
+    v.check('options-of-each-route-lists-its-own-methods', _allow_of(v, ma['OPTIONS']) == ('200', sorted(A))
+            and ('OPTIONS' in B or _allow_of(v, mb['OPTIONS']) == ('200', sorted(B))))
+    v.cover('two-maps-completed')
+
+
+harness(PROP, UTIL + ':set_default_responders', name='set_default_responders[two routes]',
+        inline=[RESPONDERS('create_default_options'), RESPONDERS('create_method_not_allowed')])(default_responders_two_routes)
 
 
 for _a in (0, 1):
@@ -1208,6 +1462,7 @@ def _guard_setup(reg, ex):
 def meta_guard(v):
     from pyvc.harness import Ready
 
+    v.expect_covers('routed', 'rejected')
     asgi = v.choose(2, 'asgi-app?')
     if v.concrete:
         return _meta_guard_replay(v, asgi)
@@ -1280,6 +1535,8 @@ def static_match(v):
     fb = v.str('fallback') if v.choose(2, 'fallback?') else None
     path = v.str('path')
     sr = v.obj('falcon.routing.static:StaticRoute', _prefix=prefix, _fallback_filename=fb)
+    v.expect_covers('decided', 'decided-with-fallback-file', 'decided-without-fallback-file')
+    sr0 = snapshot(sr)
     out = v.call(sr, path)
     v.check('no-exception', out.exc is None)
     if out.exc is not None:
@@ -1288,7 +1545,10 @@ def static_match(v):
     want = path.startswith(prefix) if fb is None else Or(path.startswith(prefix), path == bare)
     v.check('matches-iff-path-under-prefix', Iff(out.value, want))
     v.check('pure-predicate', And(v.get(sr, '_prefix') is prefix, v.get(sr, '_fallback_filename') is fb))
+    # (the scan of _get_responder asks the same matcher for every request: no memo of the last path / answer either)
+    v.check('match-writes-no-state-at-all', same_fields(snapshot(sr), sr0))
     v.cover('decided')
+    v.cover('decided-with-fallback-file' if fb is not None else 'decided-without-fallback-file')
 
 
 KILLS = [
@@ -1347,6 +1607,66 @@ KILLS = [
     # a static route with a fallback file no longer answers for its bare prefix
     ('falcon/routing/static.py', "        return path.startswith(self._prefix) or path == self._prefix[:-1]\n", "        return path.startswith(self._prefix) or path == self._prefix\n",
      'StaticRoute.match#matches-iff-path-under-prefix'),
+    # --- frames of the lookup (audit: a post-condition silent about state lets a change that corrupts it verify)
+    # the 400 default is memoised into the route's own method map (later OPTIONS/405 bookkeeping sees a phantom method)
+    ('falcon/app.py', '                responder = self.__class__._default_responder_bad_request\n',
+     '                responder = self.__class__._default_responder_bad_request\n                method_map[method] = responder\n',
+     '_get_responder#lookup-leaves-the-route-method-map-unchanged'),
+    # "adaptive" scan: the entry that matched is promoted to the front of the combined table (the table is rewritten by a lookup)
+    ('falcon/app.py', '                    responder = obj\n\n                    break\n',
+     '                    responder = obj\n                    self._sink_and_static_routes = ((matcher, obj, is_sink),) + self._sink_and_static_routes\n\n                    break\n',
+     '_get_responder#lookup-leaves-the-app-unchanged'),
+    # the dispatch key is written back into the request (middleware and responders then see method WEBSOCKET)
+    ('falcon/app.py', "        method = 'WEBSOCKET' if req.is_websocket else req.method\n", "        method = req.method = 'WEBSOCKET' if req.is_websocket else req.method\n",
+     '_get_responder#lookup-leaves-the-request-unchanged'),
+    # the router's field dict is edited on the way to the responder
+    ('falcon/app.py', '                resource, method_map, params, uri_template = route\n',
+     "                resource, method_map, params, uri_template = route\n                if params is not None:\n                    params['uri_template'] = uri_template\n",
+     '_get_responder#route-params-are-handed-over-unmodified'),
+    # one empty params dict shared by all requests that matched no route ("avoid an allocation per request")
+    ('falcon/app.py', '            params = {}\n\n            for matcher, obj, is_sink in self._sink_and_static_routes:',
+     "            params = responders.__dict__.setdefault('_NO_PARAMS', {})\n\n            for matcher, obj, is_sink in self._sink_and_static_routes:",
+     '_get_responder#no-route-params-are-a-fresh-dict-per-lookup'),
+    # --- frames of a registration step
+    # registering a static route flips the configured order for everything registered afterwards
+    ('falcon/app.py', '        self._static_routes.insert(0, (sr, sr, False))\n        self._update_sink_and_static_routes()\n',
+     '        self._static_routes.insert(0, (sr, sr, False))\n        self._update_sink_and_static_routes()\n        self._sink_before_static_route = False\n',
+     'add_static_route#configured-order-is-not-changed-by-a-registration'),
+    # registering a sink writes app state that is none of the three tables (here: drops the error handler registry)
+    ('falcon/app.py', '        self._sinks.insert(0, (prefix, sink, True))\n        self._update_sink_and_static_routes()\n',
+     '        self._sinks.insert(0, (prefix, sink, True))\n        self._update_sink_and_static_routes()\n        self._error_handlers = {}\n',
+     'add_sink#registration-writes-nothing-but-the-three-tables'),
+    # one sink table for every app of the process (a shared "empty" default)
+    ('falcon/app.py', '        self._sinks = []\n', "        self._sinks = constants.__dict__.setdefault('_NO_SINKS', [])\n", '__init__#tables-are-not-shared-between-apps'),
+    # --- frames of the default responders
+    # "a 405 should always mention OPTIONS": the factory appends to the caller's list
+    ('falcon/responders.py', '    if asgi:\n\n        async def method_not_allowed_responder_async(',
+     "    if 'OPTIONS' not in allowed_methods:\n        allowed_methods.append('OPTIONS')\n\n    if asgi:\n\n        async def method_not_allowed_responder_async(",
+     'create_method_not_allowed#given-method-list-is-not-modified'),
+    # the OPTIONS factory puts the caller's list "most recently implemented first" in place before joining it
+    ('falcon/responders.py', "    allowed = ', '.join(allowed_methods)\n", "    allowed_methods.reverse()\n    allowed = ', '.join(allowed_methods)\n",
+     'create_default_options#given-method-list-is-not-modified'),
+    # one headers dict for every error raised without explicit headers (mutable default argument)
+    ('falcon/errors.py', 'def _load_headers(headers: Optional[HeaderArg]) -> Headers:\n    """Transform the headers to dict."""\n    if headers is None:\n        return {}\n',
+     'def _load_headers(headers: Optional[HeaderArg], _none: Headers = {}) -> Headers:\n    """Transform the headers to dict."""\n    if headers is None:\n        return _none\n',
+     'HTTPMethodNotAllowed.__init__#each-405-has-its-own-headers'),
+    # --- frames of the method-map construction
+    # one method map per process ("reuse the dict"): every route completes and keeps the same table
+    ('falcon/routing/util.py', '    method_map = {}\n', "    method_map = constants.__dict__.setdefault('_METHOD_MAP', {})\n", 'map_http_methods#each-call-returns-a-new-map'),
+    # the map is memoised on the resource ("for introspection")
+    ('falcon/routing/util.py', '    return method_map\n\n\ndef set_default_responders', "    resource.__dict__['_falcon_methods_' + (suffix or '')] = method_map\n    return method_map\n\n\ndef set_default_responders",
+     'map_http_methods#resource-is-not-modified'),
+    # the router lets HEAD fall back to the GET responder before the defaults are filled in (405/Allow no longer exact)
+    ('falcon/routing/compiled.py', '        set_default_responders(method_map, asgi=asgi)\n',
+     "        if 'GET' in method_map:\n            method_map.setdefault('HEAD', method_map['GET'])\n        set_default_responders(method_map, asgi=asgi)\n",
+     'add_route#wiring-itself-adds-and-removes-no-responder'),
+    # the 405 responder is created once per flavour and reused for every route (every route answers with the first route's Allow)
+    ('falcon/responders.py', '        raise HTTPMethodNotAllowed(allowed_methods)\n\n    return method_not_allowed\n',
+     "        raise HTTPMethodNotAllowed(allowed_methods)\n\n    return create_method_not_allowed.__dict__.setdefault('wsgi', method_not_allowed)\n",
+     'set_default_responders#maps-do-not-share-default-responders'),
+    # the static matcher remembers the last path it was asked about
+    ('falcon/routing/static.py', '        """Check whether the given path matches this route."""\n', '        """Check whether the given path matches this route."""\n        self._last_path = path\n',
+     'StaticRoute.match#match-writes-no-state-at-all'),
 ]
 HARMLESS = [
     # rename a local of the scan
@@ -1414,6 +1734,8 @@ def _history_harness(v):
     app = v.obj(target, _sinks=[], _static_routes=[], _sink_and_static_routes=(), _sink_before_static_route=sbs)
     if v.concrete:
         return
+    v.expect_covers('history-checked')
+    fields0 = set(snapshot(app))
     prefixes = ['/api', r'/api/v2/(?P<item>\w+)']
     ops = []
     n = 1 + v.choose(3, 'history-length')
@@ -1449,6 +1771,8 @@ def _history_harness(v):
     combined = list(v.get(app, '_sink_and_static_routes'))
     want = ([w[1] for w in sinks_newest_first] + statics_newest_first) if sbs else (statics_newest_first + [w[1] for w in sinks_newest_first])
     v.check('combined-table-follows-the-configured-order-newest-first', [e[1] for e in combined] == want, ops=ops)
+    v.check('configured-order-is-not-changed-by-a-registration', v.get(app, '_sink_before_static_route') is sbs, ops=ops)
+    v.check('registration-writes-nothing-but-the-three-tables', set(snapshot(app)) == fields0, ops=ops)
     v.cover('history-checked')
 
 
